@@ -123,7 +123,7 @@ Proof.
   - destruct (feed_step B k st f) as [st' o] eqn:E. destruct o as [b cb|e].
     + destruct (feed_step_out _ _ _ _ _ _ _ E) as [Hcb Harm].
       cbn [map snd]. rewrite fire_count_cons. cbn [fired]. specialize (IH st'). rewrite Harm in IH.
-      destruct cb, (armed st); cbn in *; try lia. rewrite !andb_false_r in Hcb. discriminate.
+      destruct cb eqn:Ecb, (armed st) eqn:Ea; cbn [Z.b2z andb negb] in *; lia.
     + cbn. destruct (armed st); cbn; lia.
 Qed.
 
